@@ -767,6 +767,18 @@ def run_property(prop, tier, seed):
                                                + ("did not reproduce" if pb.get("native") else "not available for this modular (stubbed) obligation"))
                 else:
                     replay["replay_status"] = "verifier gave no counterexample values"
+                # modular (stubbed) obligations whose counterexample cannot be replayed natively: look for a failing input
+                # through the public entry points instead (only ever runs after a violation)
+                if not found_input and o.get("native_search") and not os.environ.get("VERIF_NO_NATIVE_SEARCH"):
+                    try:
+                        import native_search
+                        ns = native_search.run(o["native_search"], REPO, seed)
+                    except Exception as e:  # a search that cannot run changes nothing
+                        ns = {"found": False, "note": "native search did not run: " + str(e)[:300]}
+                    replay["native_search"] = ns
+                    if ns.get("found"):
+                        found_input = True
+                        replay["replay_status"] = "failing input found by native search through the public entry points (the verifier's counterexample is for a stubbed obligation)"
             else:
                 replay["verifier_output"] = r.get("verifier_output") or r.get("reason")
                 replay["replay_status"] = "verifier gives no counterexample"
